@@ -236,6 +236,13 @@ func c18Single(k c18Kind, offset int) {
 		verifHavoc(&bytes)
 		verifAssert(k.same(val, back.Elem().Field(0)), what+": the decoded value shares no memory with the input buffer")
 	}
+	// the decoded value depends on the field's own bytes only: every other byte of the message arbitrary
+	noisy := nondetBytes("noise", 64)
+	noisy[0] = 0x17
+	copy(noisy[offset:offset+k.width], enc)
+	back2 := reflect.New(t)
+	err = Unmarshal(noisy, back2.Interface())
+	verifAssert(err == nil && k.same(val, back2.Elem().Field(0)), what+": decoding reads the field's own bytes only (the rest of the message is arbitrary)")
 	verifReach("c18." + k.name)
 }
 
